@@ -23,7 +23,7 @@ def one(n):
             (shutil.copytree if os.path.isdir(s) else shutil.copy)(s, os.path.join(work, p))
         shutil.copy(os.path.join(vdir, rel), os.path.join(work, rel))
         res = {"n": n, "desc": desc, "file": rel}
-        p = subprocess.run(["/verif/bin/hwcheck", "-p", "all", "-repo", work, "-no-evidence", "-json"], capture_output=True, text=True, env=dict(ENV, GOTOOLCHAIN="local", GOSUMDB="off"))
+        p = subprocess.run(["/verif/bin/hwcheck", "-p", "all", "-repo", work, "-no-evidence", "-json"], capture_output=True, text=True, env=dict(ENV, GOTOOLCHAIN="local", GOSUMDB="off", GOMAXPROCS="2"))
         fired = {}
         compiles = True
         for line in p.stdout.splitlines():
